@@ -46,20 +46,29 @@ def run(chk):
         beh.append(lines)
     if not thorough:
         beh = beh[:40] + rng.sample(beh[40:], min(len(beh) - 40, 110)) if len(beh) > 150 else beh
+    execute(chk, beh, "tlc-schedules+random-phases")
+    chk.assumptions += ["loopback sessions between two in-process Nodes; virtual clock (ticks placed at chosen instants)",
+                        "key identity compared by value through Node::session_key(); rotation counters are inferred (ghost) from key changes at the node's own tick"]
+
+
+def replay(chk, path):
+    harness, lines = vlib.read_replay(path)
+    execute(chk, [lines], "replay")
+
+
+def execute(chk, beh, label):
     b = vlib.build("keyrot")["keyrot"]
-    wd = vlib.workdir("keyrot-C39")
+    wd = vlib.workdir("keyrot-C39-%s" % ("replay" if label == "replay" else "run"))
     script, trace = os.path.join(wd, "script.txt"), os.path.join(wd, "trace.ndjson")
     open(script, "w").write("\n".join("\n".join(x) for x in beh) + "\n")
     vlib.sh([b, script, trace, os.path.join(wd, "dir")], timeout=1500)
     events = vlib.read_ndjson(trace)
     res = vlib.validate("KeyRotationTrace", trace)
-    chk.add_traces(len(beh), len(events), res, "tlc-schedules+random-phases")
+    chk.add_traces(len(beh), len(events), res, label)
     for e in events:
         chk.nontrivial([e["op"], e.get("n"), e["ka"] == e["kb"], e["ca"], e["cb"], e.get("delivered")])
     chk.sample({"first_events": events[:12]})
     lost = sum(1 for e in events if e["op"] == "send" and e["sent"] and not e["delivered"] and e["ka"] != e["kb"])
     chk.cov["messages_lost_while_keys_differ"] = lost
-    vlib.report_trace_violations(chk, res, events, label="two real nodes over loopback")
+    vlib.report_trace_violations(chk, res, events, label="two real nodes over loopback", behaviours=beh, harness="keyrot")
     log("[trace] %d behaviours, %d events, %d clause failures; %d messages sent while keys differed were not delivered intact" % (len(beh), len(events), len(res["viol"]), lost))
-    chk.assumptions += ["loopback sessions between two in-process Nodes; virtual clock (ticks placed at chosen instants)",
-                        "key identity compared by value through Node::session_key(); rotation counters are inferred (ghost) from key changes at the node's own tick"]
